@@ -27,7 +27,7 @@ class C07(Prop):
                 "C07.evalAtom_refines", "C07.extra_normalised_both_sides", "C07.extra_spelling_irrelevant",
                 "C07.env_effective", "C07.buildEnv_ok", "C07.evaluate_refines", "C07.pure_of_effective_env",
                 "C07.parse_precedence", "C07.parse_precedence_char", "C07.atomSem_normAtom", "C07.evaluate_lst",
-                "C07.marker_evaluate_refines", "C07.marker_of_text_refines", "MkLex.lex", "MkLexP.parse_spell_print",
+                "C07.marker_evaluate_refines", "C07.marker_of_text_refines", "C07.constructed_marker_refines", "MkWf.parse_wf", "MkLex.lex", "MkLexP.parse_spell_print",
                 "MkParse.parse_print", "MkParse.formulaOf_lst", "MkParse.fOfL_norm"]
     rule = ("random and/or formulas (depth <= 6, flat mixed chains 'a or b and c or d', redundant parentheses to depth 4, "
             "both operand orders, both quote styles, PEP 345 dotted spellings, all ten operators, literals over the PEP 508 "
